@@ -58,7 +58,7 @@ func (k Case) key() string {
 }
 
 var segAlphabet = []string{"..", ".", "", "%2e%2e", "%2E.", "%2f", "%5c", "\\", "sub", "SUB", "a.txt", "A.TXT", "a.txt.gz",
-	"Casketfile", "casketfile", "index.html", "noindex", "outside", "secret.txt", "link.txt", "UPPER.TXT", weirdEsc, "b.txt", "c.txt"}
+	"Casketfile", "casketfile", "cfalias.conf", "Casketfile.lnk", "index.html", "noindex", "outside", "secret.txt", "link.txt", "UPPER.TXT", weirdEsc, "b.txt", "c.txt"}
 
 const (
 	weirdName = "we ird#%3f.txt"
@@ -133,6 +133,13 @@ func casketfile(fx *Fixture, sites []*Site, otherRootPort int, otherFirst bool) 
 	text := b.String()
 	n := fx.AddRaw("/Casketfile", tok, []byte(text))
 	n.Hidden = true
+	// two more names of the same file: what is hidden is the file, not a spelling of its name
+	if fx.Nodes["/cfalias.conf"] == nil {
+		fx.AddLink("/cfalias.conf", "/Casketfile")
+		if err := os.Link(filepath.Join(fx.Root, "Casketfile"), filepath.Join(fx.Root, "Casketfile.lnk")); err == nil {
+			fx.Nodes["/Casketfile.lnk"] = &Node{Rel: "/Casketfile.lnk", LinkTo: "/Casketfile"}
+		}
+	}
 	return text
 }
 
@@ -614,6 +621,12 @@ func runVariant(c *lib.Ctx, variant string) {
 	if b, err := os.ReadFile(cfPath); err == nil && !sut.IsAborted() {
 		tmp := cfPath + ".new"
 		if os.WriteFile(tmp, b, 0o644) == nil && os.Rename(tmp, cfPath) == nil {
+			// the hard link would now name the REPLACED file (an ordinary copy as far as
+			// anyone can tell): make it a second name of the current Casketfile again
+			lnk := filepath.Join(filepath.Dir(cfPath), "Casketfile.lnk")
+			if os.Remove(lnk) == nil {
+				os.Link(cfPath, lnk)
+			}
 			var again []Case
 			for _, cs := range cases {
 				lt := strings.ToLower(cs.Target)
@@ -657,6 +670,8 @@ func run(c *lib.Ctx) {
 	c.Assume("Linux file system semantics: '\\\\' is an ordinary file-name byte and names are case sensitive; Windows-only branches are not exercised")
 	c.Assume("'accepts' a coding = listed in Accept-Encoding with non-zero q (or '*'); the precompressed sibling may be that of the requested name or of the symlink-resolved file")
 	c.Assume("symlinks in the fixture point inside the root; following an operator-made symlink that leaves the root is not judged")
-	os.RemoveAll(filepath.Join(c.Dir, "fx-topindex"))
-	os.RemoveAll(filepath.Join(c.Dir, "fx-notopindex"))
+	if c.Violations() == 0 { // (kept for inspection otherwise)
+		os.RemoveAll(filepath.Join(c.Dir, "fx-topindex"))
+		os.RemoveAll(filepath.Join(c.Dir, "fx-notopindex"))
+	}
 }
